@@ -415,8 +415,9 @@ func (f *dataFamily) Filter(executeCtx *flow.ShardExecuteContext) (resultSet []f
 	if err != nil && !errors.Is(err, constants.ErrNotFound) {
 		return nil, err
 	}
-	resultSet = append(resultSet, memRS...)
+	// NOTE: table files hold older data than the memory databases, keep the order in which the data was written.
 	resultSet = append(resultSet, fileRS...)
+	resultSet = append(resultSet, memRS...)
 	if len(resultSet) == 0 {
 		return nil, constants.ErrNotFound
 	}
@@ -486,13 +487,15 @@ func (f *dataFamily) memoryFilter(shardExecuteContext *flow.ShardExecuteContext,
 	f.mutex.Lock()
 	defer f.mutex.Unlock()
 	snapShot = f.family.GetSnapshot()
-	if f.mutableMemDB != nil {
-		if err := memFilter(f.mutableMemDB); err != nil {
+	// NOTE: keep the order in which the data was written(immutable memory database is older than mutable one),
+	// first/last fields depend on it.
+	if f.immutableMemDB != nil {
+		if err := memFilter(f.immutableMemDB); err != nil {
 			return nil, snapShot, err
 		}
 	}
-	if f.immutableMemDB != nil {
-		if err := memFilter(f.immutableMemDB); err != nil {
+	if f.mutableMemDB != nil {
+		if err := memFilter(f.mutableMemDB); err != nil {
 			return nil, snapShot, err
 		}
 	}
